@@ -270,8 +270,24 @@ Definition zck_get_chunk_data (fuel : nat) (st : rstate) (k : nat) (dst_size : N
             match comp_init (comp_reset (reset_comp_data st1)) with
             | None => (RErr (-1), comp_reset (reset_comp_data st1))
             | Some st2 =>
-                comp_read fuel (set_idx (seek st2 (data_offset + c_start c)) (c :: next)) dst_size
-                          (match k with O => false | _ => true end)
+                (* seek, fresh chunk checksum, data_idx = idx *)
+                let st3 := set_idx (set_chash (seek st2 (data_offset + c_start c)) (Some [])) (c :: next) in
+                let ud := match k with O => false | _ => true end in
+                match comp_read fuel st3 dst_size ud with
+                | (ROk o, st4) =>
+                    (* the whole declared size was asked for and the chunk is still open
+                       (data_idx == idx: the same position in the table): finish it *)
+                    if (c_ulen c <=? dst_size) && Nat.eqb (length (r_idx st4)) (length (c :: next)) then
+                      if (r_loc st4 =? c_clen c) && (match r_dc st4 with [] => true | _ => false end) then
+                        if 0 <? r_err st4 then (RErr (-1), st4)
+                        else match end_dchunk st4 ud c next with
+                             | (None, ste) => (RErr (-1), ste)
+                             | (Some st5, _) => (ROk o, match next with [] => set_eof st5 true | _ => st5 end)
+                             end
+                      else (RErr (-1), set_err st4 1)
+                    else (ROk o, st4)
+                | r => r
+                end
             end
         end
   end.
